@@ -229,6 +229,8 @@ def jobs(tier, seed):
     ssrc = '#include "verif_sandbox.hpp"\nusing S = B32S;\n#include "C03_small.inc"\n'
     out.append(Job("C03_B32S", ssrc, [dict(name="B32S " + k, fn=check_small, kw=dict(k=k)) for k in ("k_small_malloc_int", "k_small_malloc_vs24", "k_small_accept", "k_small_assign")],
                    native=False))
+    from specs import C07
+    out.append(Job("C03_BM_nested", '#include "C07_bm2.inc"\n', [dict(name="BM pointer field of a struct nested by value: " + k, fn=C07.check_bm2, kw=dict(k=k)) for k in ("k_bm_load_nested",)], native=False))
     for k in ("k_bm_load_fnptrptr", "k_bm_cast_fnptrptr"):
         out.append(Job("C03_BM_" + k, '#include "C03_bm.inc"\n', [dict(name="BM " + k, fn=check_bm_cell, kw=dict(k=k))], native=False))
     for k in ("k_bm_fn_to_data", "k_bm_data_to_data"):
